@@ -430,6 +430,13 @@ func TestVerifC15Composite(t *testing.T) {
 	vs.Run(t, "C15", func(c *vs.Case) error { return vw.PropC15(c, compositeFactory, "composite") })
 }
 
+func TestVerifC14LiveComposite(t *testing.T) {
+	vs.Run(t, "C14", func(c *vs.Case) error {
+		env := vw.NewC20Env()
+		return vw.PropC14Live(c, "composite", env, newC20CompositeDriver(env))
+	})
+}
+
 func TestVerifC15LiveComposite(t *testing.T) {
 	vs.Run(t, "C15", func(c *vs.Case) error {
 		env := vw.NewC20Env()
